@@ -14,6 +14,11 @@ function and construct, never by position.
                                   left-most evaluated position of an if / return /
                                   assignment; an elif becomes else: + nested if)
 
+  match args: case (x, y): ...   sequence patterns on the function's own *args tuple: len(args) == k and the
+                                  element-wise patterns on args[i]
+
+  @staticmethod def f(...)       hoisted to a module-level function; C.f(...) / self.f(...) / cls.f(...) redirected
+
 A pattern or position outside this fragment is left as it is; the engines then
 fail closed (exit 2) on the statement they do not model.
 """
@@ -26,6 +31,10 @@ from typing import List, Optional, Tuple
 
 class _Unsupported(Exception):
     pass
+
+
+_VARARGS: List[str] = []  # *args names of the enclosing functions while a module is being rewritten
+_SEQ_SUBJECTS: List[str] = []  # match subjects known to be sequences: list(...) / tuple(...) results, or matched only by sequence patterns
 
 
 def _simple(e: ast.AST) -> bool:
@@ -61,6 +70,21 @@ def _pattern(p, subj: ast.AST) -> Tuple[Optional[ast.AST], List[ast.stmt]]:
         return ast.Compare(left=copy.deepcopy(subj), ops=[ast.Eq()], comparators=[copy.deepcopy(p.value)]), []
     if isinstance(p, ast.MatchSingleton):
         return ast.Compare(left=copy.deepcopy(subj), ops=[ast.Is()], comparators=[ast.Constant(value=p.value)]), []
+    if isinstance(p, ast.MatchSequence) and isinstance(subj, ast.Name) and (subj.id in _VARARGS or subj.id in _SEQ_SUBJECTS) and not any(
+            isinstance(q, ast.MatchStar) for q in p.patterns):
+        # the subject is the function's *args tuple: a sequence pattern of k sub-patterns is `len(args) == k` plus the
+        # element-wise patterns on args[0] ... args[k-1]
+        k = len(p.patterns)
+        tests = [ast.Compare(left=ast.Call(func=ast.Name(id="len", ctx=ast.Load()), args=[copy.deepcopy(subj)], keywords=[]),
+                             ops=[ast.Eq()], comparators=[ast.Constant(value=k)])]
+        binds = []
+        for i, q in enumerate(p.patterns):
+            elem = ast.Subscript(value=copy.deepcopy(subj), slice=ast.Constant(value=i), ctx=ast.Load())
+            t, b = _pattern(q, elem)
+            if t is not None:
+                tests.append(t)
+            binds += b
+        return (tests[0] if len(tests) == 1 else ast.BoolOp(op=ast.And(), values=tests)), binds
     if isinstance(p, ast.MatchSequence):
         if not isinstance(subj, ast.Tuple) or len(subj.elts) != len(p.patterns) or any(isinstance(q, ast.MatchStar) for q in p.patterns):
             raise _Unsupported()
@@ -92,7 +116,15 @@ def _match_to_if(m: ast.Match) -> List[ast.stmt]:
     elif not _simple(subj):
         nm = "_g3d_match_%d" % m.lineno
         pre.append(ast.Assign(targets=[ast.Name(id=nm, ctx=ast.Store())], value=subj))
+        is_seq = isinstance(subj, ast.Call) and isinstance(subj.func, ast.Name) and subj.func.id in ("list", "tuple", "sorted")
         subj = ast.Name(id=nm, ctx=ast.Load())
+        if is_seq:
+            _SEQ_SUBJECTS.append(nm)
+    if isinstance(subj, ast.Name) and subj.id not in _SEQ_SUBJECTS:
+        def seq_or_wild(p):
+            return isinstance(p, ast.MatchSequence) or (isinstance(p, ast.MatchAs) and p.pattern is None)
+        if any(isinstance(c.pattern, ast.MatchSequence) for c in m.cases) and all(seq_or_wild(c.pattern) for c in m.cases):
+            _SEQ_SUBJECTS.append(subj.id)  # matched by length only: the subject is used as a sequence
     arms = []
     for c in m.cases:
         test, binds = _pattern(c.pattern, subj)
@@ -172,6 +204,17 @@ class Desugar(ast.NodeTransformer):
                 c.body = self._block(c.body)
         return node
 
+    def visit_FunctionDef(self, node):
+        va = node.args.vararg.arg if node.args.vararg is not None else None
+        reassigned = va is not None and any(isinstance(x, ast.Name) and x.id == va and isinstance(x.ctx, ast.Store) for x in ast.walk(node))
+        if va is not None and not reassigned:
+            _VARARGS.append(va)
+        try:
+            return self.generic_visit(node)
+        finally:
+            if va is not None and not reassigned:
+                _VARARGS.pop()
+
     def visit_Match(self, node):
         self.generic_visit(node)
         try:
@@ -212,7 +255,66 @@ class Desugar(ast.NodeTransformer):
         return pre + [node] if pre else node
 
 
+def _hoist_staticmethods(tree: ast.Module) -> None:
+    """@staticmethod def f(...) of class C  ->  module-level function _C_static_f; calls C.f(...) anywhere in the module and
+    self.f(...) / cls.f(...) inside C are redirected.  (A static method is a plain function that lives in a class
+    namespace; no engine needs to know about the namespace.)"""
+    new_body: List[ast.stmt] = []
+    renames = {}
+    for st in tree.body:
+        new_body.append(st)
+        if not isinstance(st, ast.ClassDef):
+            continue
+        keep = []
+        for m in st.body:
+            if isinstance(m, ast.FunctionDef) and any(isinstance(d, ast.Name) and d.id == "staticmethod" for d in m.decorator_list) \
+                    and len(m.decorator_list) == 1:
+                new_name = "_%s_static_%s" % (st.name, m.name)
+                renames[(st.name, m.name)] = new_name
+                m.decorator_list = []
+                m.name = new_name
+                new_body.append(m)
+            else:
+                keep.append(m)
+        st.body = keep or [ast.copy_location(ast.Pass(), st)]
+    if not renames:
+        return
+    tree.body = new_body
+
+    class R(ast.NodeTransformer):
+        def __init__(self):
+            self.cls = None
+            self.recv = set()
+
+        def visit_ClassDef(self, n):
+            old = self.cls
+            self.cls = n.name
+            self.generic_visit(n)
+            self.cls = old
+            return n
+
+        def visit_FunctionDef(self, n):
+            old = self.recv
+            if self.cls is not None and n.args.args:
+                self.recv = {n.args.args[0].arg}
+            self.generic_visit(n)
+            self.recv = old
+            return n
+
+        def visit_Attribute(self, n):
+            self.generic_visit(n)
+            if isinstance(n.value, ast.Name) and isinstance(n.ctx, ast.Load):
+                if (n.value.id, n.attr) in renames:
+                    return ast.copy_location(ast.Name(id=renames[(n.value.id, n.attr)], ctx=ast.Load()), n)
+                if self.cls is not None and n.value.id in self.recv and (self.cls, n.attr) in renames:
+                    return ast.copy_location(ast.Name(id=renames[(self.cls, n.attr)], ctx=ast.Load()), n)
+            return n
+
+    R().visit(tree)
+
+
 def desugar(tree: ast.Module) -> ast.Module:
+    _hoist_staticmethods(tree)
     d = Desugar()
     tree.body = d._block(tree.body)
     ast.fix_missing_locations(tree)
